@@ -297,6 +297,11 @@ def gen_template(rng, G):
             if mixed:
                 steps[-1].update(pdtype=rng.choice(DTYPES + ("float64",)), big=([rng.random() < 0.5 for _ in range(G.n_ind)] if (is_ind and idx is None) else rng.random() < 0.5),
                                  small=[rng.randint(-6, 6) for _ in range(G.n_ind)])
+        # between the proposal and its decision, an assignment the State REFUSES (a derived variable is not settable: LeaspyInputError,
+        # caught by the caller) — the pending proposal must still be revertible, entirely
+        derived = [n for n in names if n not in sett]
+        if derived and rng.random() < 0.3:
+            steps[-1]["refused_set"] = rng.choice(derived)
         # the template does not know the outcome yet: `cur` is advanced when the history is instantiated
     later = list(names)
     rng.shuffle(later)
@@ -318,6 +323,17 @@ class StepRun:
         self.failures = []          # (signature, what, expected, observed, node, step)
         self.nonfinite_steps = 0
         self.step_ops_index = []
+
+    def refused_set(self, st, v):
+        """the refused assignment of the template (if any): the value offered is the current value of the sampled variable"""
+        name = st.get("refused_set")
+        if name is None:
+            return
+        out = self.s.apply(["set", 0, name, self.cur[v] if not self.mixed else 1])
+        self.refused_sets = getattr(self, "refused_sets", 0) + 1
+        if out and out[0] != "err":
+            self.failures.append(dict(sig="set:derived-variable-accepted", what=f"an assignment to the derived variable '{name}' was not refused",
+                                      node=name, step=None, expected="LeaspyInputError", observed=list(out)))
 
     def tensor_add(self, cur, delta):
         def a(c, d):
@@ -460,6 +476,7 @@ class StepRun:
                 t_new = s.states[0]._values[v]
                 for r in st["mid"]:
                     s.apply(["get", 0, r])
+                self.refused_set(st, v)
                 mask = self.mask if st["mask"] is None else st["mask"]
                 real = s.states[0]
                 fork_json = {c: T.val_json(o) for c, o in (real._last_fork or {}).items()}
@@ -486,6 +503,7 @@ class StepRun:
                     new[j] = self.tensor_add(old[j], d)
                 for r in st["mid"]:
                     s.apply(["get", 0, r])
+                self.refused_set(st, v)
                 if st["reject"]:
                     s.apply(["revert", 0])
                     what = f"revert() of a proposal on '{v}'"
